@@ -1,25 +1,31 @@
 -------------------------------- MODULE Match --------------------------------
 (***************************************************************************)
 (* The part of the stored format that is nowhere written down: how the     *)
-(* next token is predicted from the plaintext and the parameters.  The     *)
-(* corrections in stored data are differences against these predictions,   *)
-(* so every rule here (hash function, which positions enter the            *)
-(* dictionary, the order in which candidates are visited, where the search *)
-(* stops, the lazy rule) is part of the format (C04).  Transcribed from    *)
-(* hash_algorithm.rs, hash_chain.rs, add_policy_estimator.rs (update_hash),*)
-(* hash_chain_holder.rs (match_token_offset) and token_predictor.rs        *)
-(* (predict_token), for the hash functions that fit 32-bit arithmetic      *)
-(* (zlib's rotating hash, miniz' level-1 hash).                            *)
+(* next token is predicted from the plaintext and the parameters, and how  *)
+(* the difference between the prediction and the real token is expressed.  *)
+(* The corrections in stored data are differences against these            *)
+(* predictions, so every rule here (hash function, which positions enter   *)
+(* the dictionary, the order in which candidates are visited, where the    *)
+(* search stops, the lazy rule, how a distance is counted in hops) is part *)
+(* of the format (C04).  Transcribed from hash_algorithm.rs, hash_chain.rs,*)
+(* add_policy_estimator.rs (update_hash), hash_chain_holder.rs             *)
+(* (match_token_offset, calculate_hops) and token_predictor.rs             *)
+(* (predict_token, repredict_reference, the token part of predict_block),  *)
+(* for all seven hash functions (the 32-bit multiplications and the CRC    *)
+(* are done on 16-bit halves: TLC's integers are 32-bit signed).           *)
 (*                                                                         *)
 (* The dictionary is kept abstractly: H is the hash of every position and  *)
 (* chains[h] the inserted positions with hash h, most recent first.  (The  *)
 (* 16-bit position arithmetic and the periodic reshift of the real tables  *)
-(* are below this level.)                                                  *)
+(* are below this level: what a reshift drops is further away than any     *)
+(* distance the walk accepts.)  libdeflate's matcher keeps a second table  *)
+(* over 3-byte hashes whose head is visited before the 4-byte chain: H3 /  *)
+(* chains3, empty for the other hash functions.                            *)
 (*                                                                         *)
 (* Parameters p: the 18-vector of Params.tla.  Tokens <<0,b,0,0>> literal, *)
 (* <<1,len,dist,irr>> reference.  Positions are 0-based, plain is 1-based. *)
 (***************************************************************************)
-EXTENDS Naturals, Sequences, Bitwise
+EXTENDS Naturals, Sequences, Bitwise, HashTables
 
 MinMatch == 3
 MaxMatch == 258
@@ -28,30 +34,57 @@ P2(n) == 2 ^ n
 Mn(a, b) == IF a < b THEN a ELSE b
 Mx(a, b) == IF a > b THEN a ELSE b
 
-\* ---- hash of the 3 bytes at 0-based position q
+\* ---- hash of the bytes at 0-based position q
 ZlibHash(plain, q, shift, mask) ==
   ((((((plain[q + 1] * P2(shift)) % 65536) ^^ plain[q + 2]) * P2(shift)) % 65536) ^^ plain[q + 3]) & mask
 MinizHash(plain, q) ==
   LET h == plain[q + 1] + 256 * plain[q + 2] + 65536 * plain[q + 3]
   IN (h ^^ (h \div 131072)) & 4095
-Supported(p) == p[5] \in {1, 2}
-HashAt(plain, q, p) == IF p[5] = 1 THEN ZlibHash(plain, q, p[6], p[7]) ELSE MinizHash(plain, q)
+\* bits 16..31 of (xh * 2^16 + xl) * (kh * 2^16 + kl) mod 2^32, all operands below 2^16
+MulLow16(a, k) == (a * (k % 256) + ((a * (k \div 256)) % 256) * 256) % 65536
+MulHigh16(a, k) == (a * (k \div 256) + ((a * (k % 256)) \div 256)) \div 256
+Top16(xh, xl, kh, kl) == (MulHigh16(xl, kl) + MulLow16(xh, kl) + MulLow16(xl, kh)) % 65536
+Le16(plain, q) == plain[q + 1] + 256 * plain[q + 2]
+LibdeflateHash4(plain, q) == Top16(Le16(plain, q + 2), Le16(plain, q), 7733, 42941)        \* * 0x1E35A7BD >> 16
+LibdeflateHash3(plain, q) == Top16(plain[q + 3], Le16(plain, q), 7733, 42941) \div 2      \* 3 bytes, >> 17
+ZlibNgHash(plain, q) == Top16(Le16(plain, q + 2), Le16(plain, q), 40503, 31153)             \* * 2654435761 >> 16
+RandomVectorHash(plain, q) ==
+  (RandomVector[plain[q + 1] + 1] ^^ RandomVector[plain[q + 2] + 257]) ^^ RandomVector[plain[q + 3] + 513]
+\* one step of the table driven CRC on <<hi, lo>>: crc = (crc >> 8) ^ T[(crc ^ b) & 0xFF]
+CrcStep(c, b) == LET i == ((c[2] ^^ b) & 255) + 1
+                 IN << (c[1] \div 256) ^^ Crc32cHi[i], (((c[1] % 256) * 256) + (c[2] \div 256)) ^^ Crc32cLo[i] >>
+Crc32cHash(plain, q) ==
+  CrcStep(CrcStep(CrcStep(<<Crc32cHi[plain[q + 1] + 1], Crc32cLo[plain[q + 1] + 1]>>, plain[q + 2]), plain[q + 3]), plain[q + 4])[2]
+
+Supported(p) == p[5] \in 1..7
+HashBytes(p) == IF p[5] \in {3, 4, 5, 7} THEN 4 ELSE 3
+HashAt(plain, q, p) ==
+  CASE p[5] = 1 -> ZlibHash(plain, q, p[6], p[7])
+    [] p[5] = 2 -> MinizHash(plain, q)
+    [] p[5] \in {3, 4} -> LibdeflateHash4(plain, q)
+    [] p[5] = 5 -> ZlibNgHash(plain, q)
+    [] p[5] = 6 -> RandomVectorHash(plain, q)
+    [] p[5] = 7 -> Crc32cHash(plain, q)
+HasSecondary(p) == p[5] = 3
 
 \* ---- which positions a token of `length` bytes at pos adds (DictionaryAddPolicy::update_hash
 \* with HashTable::update_chain: a batch that would need bytes beyond the input is dropped whole)
-Batch(n, from, cnt) == IF cnt + 2 >= n - from THEN <<>> ELSE [i \in 1..cnt |-> from + i - 1]
+\* (nhb: the number of bytes the table's hash function reads)
+Batch(n, from, cnt, nhb) == IF cnt + nhb - 1 >= n - from THEN <<>> ELSE [i \in 1..cnt |-> from + i - 1]
 At32k(length, pos) == length > 1 /\ (pos % 32768) <= 32768 - 262 /\ ((pos + length) % 32768) >= 32768 - 262
-Added(n, pos, length, p) ==
-  IF length = 1 THEN Batch(n, pos, 1)
-  ELSE IF p[17] = 0 THEN Batch(n, pos, length)
-  ELSE IF p[17] = 1 THEN (IF length <= p[18] THEN Batch(n, pos, length) ELSE Batch(n, pos, 1))
-  ELSE IF p[17] = 2 THEN (IF length <= p[18] THEN Batch(n, pos, length)
-                          ELSE Batch(n, pos, 1) \o Batch(n, pos + length - 1, 1))
-  ELSE IF p[17] = 3 THEN (IF (pos % 4096) < 4093 THEN Batch(n, pos, 1) ELSE <<>>)
-  ELSE Batch(n, pos, 1) \o (IF At32k(length, pos) THEN Batch(n, pos + length - 1, 1) ELSE <<>>)
+AddedN(n, pos, length, p, nhb) ==
+  IF length = 1 THEN Batch(n, pos, 1, nhb)
+  ELSE IF p[17] = 0 THEN Batch(n, pos, length, nhb)
+  ELSE IF p[17] = 1 THEN (IF length <= p[18] THEN Batch(n, pos, length, nhb) ELSE Batch(n, pos, 1, nhb))
+  ELSE IF p[17] = 2 THEN (IF length <= p[18] THEN Batch(n, pos, length, nhb)
+                          ELSE Batch(n, pos, 1, nhb) \o Batch(n, pos + length - 1, 1, nhb))
+  ELSE IF p[17] = 3 THEN (IF (pos % 4096) < 4093 THEN Batch(n, pos, 1, nhb) ELSE <<>>)
+  ELSE Batch(n, pos, 1, nhb) \o (IF At32k(length, pos) THEN Batch(n, pos + length - 1, 1, nhb) ELSE <<>>)
+Added(n, pos, length, p) == AddedN(n, pos, length, p, HashBytes(p))
+Added3(n, pos, length, p) == AddedN(n, pos, length, p, 3)            \* the secondary table
 
 \* ---- the dictionary: for every hash value the inserted positions, most recent first
-EmptyChains(p) == [h \in 0..(IF p[5] = 1 THEN p[7] ELSE 4095) |-> <<>>]
+EmptyChains(H) == [h \in {H[i] : i \in 1..Len(H)} |-> <<>>]
 RECURSIVE InsertAll(_, _, _, _)
 InsertAll(chains, H, qs, i) ==
   IF i > Len(qs) THEN chains
@@ -61,8 +94,12 @@ InsertAll(chains, H, qs, i) ==
 \* at pos + off.  With off = 1 the position pos itself is not in the dictionary yet; if it
 \* hashes like pos + 1 it is visited first, at distance 1.
 ChainOf(chains, h, ref) == [i \in 1..Len(chains[h]) |-> ref - chains[h][i]]
-Candidates(chains, H, pos, off) ==
-  (IF off = 1 /\ H[pos + 1] = H[pos + 2] THEN <<1>> ELSE <<>>) \o ChainOf(chains, H[pos + off + 1], pos + off)
+\* d: the dictionary [H, chains, H3, chains3]
+Candidates(d, pos, off, p) ==
+  IF HasSecondary(p) /\ off = 0
+  THEN (IF d.chains3[d.H3[pos + 1]] # <<>> THEN <<pos - d.chains3[d.H3[pos + 1]][1]>> ELSE <<>>)
+       \o ChainOf(d.chains, d.H[pos + 1], pos)
+  ELSE (IF off = 1 /\ d.H[pos + 1] = d.H[pos + 2] THEN <<1>> ELSE <<>>) \o ChainOf(d.chains, d.H[pos + off + 1], pos + off)
 
 \* common prefix of the text at start and at start - dist, at most maxlen
 RECURSIVE Common(_, _, _, _, _)
@@ -87,7 +124,7 @@ Walk(plain, c, i, start, maxlen, nice, d3, hop0, hop1, best, chain) ==
           ELSE Walk(plain, c, i + 1, start, maxlen, nice, d3, hop0, hop1, nb, IF chain = 0 THEN 0 ELSE chain - 1)
 \* (chain = 0 means no limit: a depth of 0 wraps around in the release build)
 
-MatchAt(plain, chains, H, pos, off, prevlen, depth, p) ==
+MatchAt(plain, d, pos, off, prevlen, depth, p) ==
   LET n == Len(plain)
       start == pos + off
       maxlen == Mn(n - start, MaxMatch)
@@ -96,24 +133,73 @@ MatchAt(plain, chains, H, pos, off, prevlen, depth, p) ==
       far == p[10] = 1
       hop0 == IF far THEN Mn(toStart, window) ELSE IF p[1] = 1 THEN 1 ELSE Mn(toStart, window - MinLookahead + 1)
       hop1 == IF far THEN Mn(toStart, window) ELSE IF p[1] = 1 THEN 1 ELSE Mn(toStart, window - MinLookahead)
-  IN IF maxlen < Mx(prevlen + 1, MinMatch) THEN NoRef                      \* NoInput
+  IN IF maxlen < Mx(prevlen + 1, Mx(HashBytes(p), MinMatch)) THEN NoRef                      \* NoInput
      ELSE IF ~far /\ p[1] \in {2, 3} THEN NoRef                            \* huffman only / store
-     ELSE Walk(plain, Candidates(chains, H, pos, off), 1, start, maxlen, Mn(p[14], maxlen), p[9], hop0, hop1,
+     ELSE Walk(plain, Candidates(d, pos, off, p), 1, start, maxlen, Mn(p[14], maxlen), p[9], hop0, hop1,
                <<prevlen, 0>>, depth)
 IsMatch(m) == m[2] > 0 /\ m[1] >= MinMatch
 
 \* ---- predict_token: state s = [pos, pend], result [tok, pend]
-Predict(plain, chains, H, s, p) ==
+Predict(plain, d, s, p) ==
   LET n == Len(plain) IN
   IF s.pos = 0 \/ n - s.pos < MinMatch THEN [tok |-> <<0, 0, 0, 0>>, pend |-> s.pend]
-  ELSE LET m == IF s.pend # NoRef THEN s.pend ELSE MatchAt(plain, chains, H, s.pos, 0, 0, p[15], p) IN
+  ELSE LET m == IF s.pend # NoRef THEN s.pend ELSE MatchAt(plain, d, s.pos, 0, 0, p[15], p) IN
        IF ~IsMatch(m) THEN [tok |-> <<0, 0, 0, 0>>, pend |-> NoRef]
        ELSE IF m[1] = 3 /\ m[2] > p[9] THEN [tok |-> <<0, 0, 0, 0>>, pend |-> NoRef]
        ELSE IF p[13] > 0 /\ m[1] < p[13] /\ n - s.pos >= m[1] + 2 THEN
               LET depth == IF p[3] = 1 /\ m[1] >= p[12] THEN p[15] \div 4 ELSE p[15]
-                  m1 == MatchAt(plain, chains, H, s.pos, 1, m[1], depth, p)
+                  m1 == MatchAt(plain, d, s.pos, 1, m[1], depth, p)
               IN IF IsMatch(m1) /\ m1[2] > 0 /\ m1[1] > m[1]
                  THEN [tok |-> <<0, 0, 0, 0>>, pend |-> IF p[3] = 1 THEN m1 ELSE NoRef]
                  ELSE [tok |-> <<1, m[1], m[2], 0>>, pend |-> NoRef]
        ELSE [tok |-> <<1, m[1], m[2], 0>>, pend |-> NoRef]
+
+\* ---- calculate_hops: the distance of the real reference as the number of candidates, up to
+\* and including it, at which the text agrees over the reference's whole length (0: not found)
+RECURSIVE HopsWalk(_, _, _, _, _, _, _, _, _)
+HopsWalk(plain, c, i, pos, tlen, tdist, maxdist, hops, chain) ==
+  IF i > Len(c) \/ c[i] > maxdist THEN 0
+  ELSE LET h2 == hops + (IF Common(plain, pos, c[i], 0, tlen) >= tlen THEN 1 ELSE 0) IN
+       IF c[i] = tdist THEN h2
+       ELSE IF c[i] > tdist \/ chain <= 1 THEN 0
+       ELSE HopsWalk(plain, c, i + 1, pos, tlen, tdist, maxdist, h2, chain - 1)
+Hops(plain, d, pos, tlen, tdist, p) ==
+  IF Mn(Len(plain) - pos, MaxMatch) < tlen THEN 0
+  ELSE HopsWalk(plain, Candidates(d, pos, 0, p), 1, pos, tlen, tdist, Mn(pos, P2(p[4])), 0, 65535)
+
+\* ---- hop_match, the inverse: the distance of the hops-th agreeing candidate (0: none)
+RECURSIVE HopMatchWalk(_, _, _, _, _, _, _, _)
+HopMatchWalk(plain, c, i, pos, len, maxdist, hops, cur) ==
+  IF i > Len(c) \/ c[i] > maxdist THEN 0
+  ELSE LET c2 == cur + (IF Common(plain, pos, c[i], 0, len) >= len THEN 1 ELSE 0) IN
+       IF c2 > cur /\ c2 = hops THEN c[i]
+       ELSE HopMatchWalk(plain, c, i + 1, pos, len, maxdist, hops, c2)
+HopMatch(plain, d, pos, len, hops, p) ==
+  IF Mn(Len(plain) - pos, MaxMatch) < len THEN 0
+  ELSE HopMatchWalk(plain, Candidates(d, pos, 0, p), 1, pos, len, Mn(pos, P2(p[4])), hops, 0)
+
+\* ---- the correction operations of one token (predict_block), <<kind, role, value, width>>
+EncodeDiff(pred, act) == IF pred >= act THEN (pred - act) * 2 ELSE (act - pred) * 2 + 1
+Cor(ctx, v) == <<"C", ctx, v, 0>>
+Mis(ctx, b) == <<"M", ctx, IF b THEN 1 ELSE 0, 0>>
+\* repredict_reference: the match search again, without the lazy rule and the 3-byte distance rule
+Repredict(plain, d, s, p) ==
+  IF s.pos = 0 \/ Len(plain) - s.pos < MinMatch THEN NoRef ELSE MatchAt(plain, d, s.pos, 0, 0, p[15], p)
+RefOps(plain, d, s, p, t, pm, flag) ==
+  << flag, Cor("LenCorrection", EncodeDiff(pm[1], t[2])),
+     IF pm[1] # t[2] THEN Cor("DistAfterLenCorrection", Hops(plain, d, s.pos, t[2], t[3], p))
+     ELSE IF pm[2] # t[3] THEN Cor("DistOnlyCorrection", Hops(plain, d, s.pos, t[2], t[3], p))
+     ELSE Cor("DistOnlyCorrection", 0) >>
+  \o (IF t[2] = 258 THEN << Mis("IrregularLen258", t[4] = 1) >> ELSE <<>>)
+\* pr: the prediction (Predict).  <<>> stands for "the analysis fails here" (no match to correct from)
+TokenOps(plain, d, s, p, t, pr) ==
+  IF t[1] = 0 THEN (IF pr.tok[1] = 0 THEN << Mis("LiteralPredictionWrong", FALSE) >>
+                    ELSE << Mis("ReferencePredictionWrong", TRUE) >>)
+  ELSE IF pr.tok[1] = 1 THEN RefOps(plain, d, s, p, t, <<pr.tok[2], pr.tok[3]>>, Mis("ReferencePredictionWrong", FALSE))
+  ELSE LET rm == Repredict(plain, d, s, p) IN
+       IF ~IsMatch(rm) THEN <<>> ELSE RefOps(plain, d, s, p, t, rm, Mis("LiteralPredictionWrong", TRUE))
+\* the decoder's side of the same token: what hop_match makes of the correction
+Decoded(plain, d, s, p, ops, pm) ==
+  LET len == IF ops[2][3] % 2 = 0 THEN pm[1] - ops[2][3] \div 2 ELSE pm[1] + ops[2][3] \div 2
+  IN IF len # pm[1] \/ ops[3][3] # 0 THEN <<len, HopMatch(plain, d, s.pos, len, ops[3][3], p)>> ELSE pm
 =============================================================================
